@@ -22,6 +22,14 @@ for (const [name, v] of Object.entries(ENT)) { if (!BY_CHAR.has(v)) BY_CHAR.set(
 
 const SUCC = ['', '0', '7', 'a', 'F', '"', "'", '\\', '{', '}', 'u', ';', '#', 'x']
 
+/** hexadecimal digits in lower, upper or mixed case (all are the same number) */
+function hexCase(h, k) {
+  const m = (k >> 2) % 3
+  if (m === 0) return h
+  if (m === 1) return h.toUpperCase()
+  return Array.from(h).map((c, i) => (i % 2 ? c.toUpperCase() : c)).join('')
+}
+
 function spellHtml(s, quote, mode, k) {
   // mode 0: raw where legal; 1: named entity if any; 2: decimal; 3: hex
   let out = ''
@@ -37,7 +45,7 @@ function spellHtml(s, quote, mode, k) {
     const m = must && mode === 0 ? 1 + (k % 3) : mode
     if (m === 1 && names) out += '&' + names[k % names.length] + ';'
     else if (m === 2 || (m === 1 && !names && k % 2 === 0)) out += '&#' + cp + ';'
-    else out += '&#' + (k % 2 ? 'x' : 'x') + cp.toString(16) + ';'
+    else out += '&#x' + hexCase(cp.toString(16), k) + ';'
   }
   return out
 }
@@ -56,10 +64,10 @@ function spellJs(s, k) {
     else if (ch === '"') esc = '\\x22' // the attribute is delimited by the double quote
     else if (ch === '\n') esc = '\\n'
     else if (ch === '\r') esc = '\\r'
-    else if (cp === 0x2028 || cp === 0x2029) esc = '\\u' + cp.toString(16)
+    else if (cp === 0x2028 || cp === 0x2029) esc = '\\u' + hexCase(cp.toString(16), k)
     else if (cp === 0) esc = nextDigit ? '\\x00' : '\\0'
-    else if (mode === 1 && cp <= 0xff) esc = '\\x' + cp.toString(16).padStart(2, '0')
-    else if (mode === 2 && cp <= 0xffff && !(cp >= 0xd800 && cp <= 0xdfff)) esc = '\\u' + cp.toString(16).padStart(4, '0')
+    else if (mode === 1 && cp <= 0xff) esc = '\\x' + hexCase(cp.toString(16).padStart(2, '0'), k)
+    else if (mode === 2 && cp <= 0xffff && !(cp >= 0xd800 && cp <= 0xdfff)) esc = '\\u' + hexCase(cp.toString(16).padStart(4, '0'), k)
     else if (mode === 1) esc = { 9: '\\t', 8: '\\b', 12: '\\f', 11: '\\v' }[cp] || null
     out += esc === null ? ch : esc
   }
